@@ -35,26 +35,39 @@ CONSTANT Mech
 VARIABLES src,      \* what the source supplies (never changes)
           store,    \* [Var -> Tag]: the coordinate part of Grid._ds
           norm,     \* Grid._normalized: "unknown" | "yes" | "no"
-          nrmRan    \* normalize_cartesian_coordinates() has been called
+          nrmRan,   \* normalize_cartesian_coordinates() has been called
+          fpos,     \* position the face-centre variables denote: "src" | "cen"
+          recRan    \* construct_face_centers("cartesian average") has been called
 
-vars == <<src, store, norm, nrmRan>>
+vars == <<src, store, norm, nrmRan, fpos, recRan>>
 
 (* ---- the machine --------------------------------------------------------------- *)
 Init == /\ src \in Sources
         /\ store = InitStore(src)
         /\ norm = "unknown"
         /\ nrmRan = FALSE
+        /\ fpos = InitFpos(src)
+        /\ recRan = FALSE
 
 Access(v) == /\ store' = AccessEff(Mech, store, v)
-             /\ UNCHANGED <<src, norm, nrmRan>>
+             /\ UNCHANGED <<src, norm, nrmRan, fpos, recRan>>
 
 Normalize == LET r == NormalizeEff(Mech, store, norm)
              IN /\ store' = r.st
                 /\ norm' = r.norm
                 /\ nrmRan' = TRUE
-                /\ UNCHANGED src
+                /\ UNCHANGED <<src, fpos, recRan>>
 
-Next == (\E v \in Var : Access(v)) \/ Normalize
+Recentre == LET r == RecentreEff(Mech, store, fpos)
+            IN /\ store' = r.st
+               /\ fpos' = r.fpos
+               /\ recRan' = TRUE
+               /\ UNCHANGED <<src, norm, nrmRan>>
+
+Chunk == /\ store' = ChunkEff(Mech, store)
+         /\ UNCHANGED <<src, norm, nrmRan, fpos, recRan>>
+
+Next == (\E v \in Var : Access(v)) \/ Normalize \/ Recentre \/ Chunk
 Spec == Init /\ [][Next]_vars
 
 (* ---- the property, clause by clause ------------------------------------------------ *)
@@ -62,16 +75,23 @@ TypeOK == /\ src \in Sources
           /\ store \in [Var -> Tags]
           /\ norm \in {"unknown", "yes", "no"}
           /\ nrmRan \in BOOLEAN
+          /\ fpos \in {"src", "cen"}
+          /\ recRan \in BOOLEAN
 
 LonInRange  == \A v \in Var : (IsLon(v) /\ Has(store, v)) => store[v] = "deg180"
 LatInRange  == \A v \in Var : (IsLat(v) /\ Has(store, v)) => store[v] = "deg90"
 SamePoint   == \A v \in Var : (IsCart(v) /\ Has(store, v)) => DirOk(store[v])
-DerivedUnit == \A v \in Var : (IsCart(v) /\ Has(store, v) /\ ~SuppliedVar(src, v)) => store[v] = "unit"
+DerivedUnit == \A v \in Var : (IsCart(v) /\ Has(store, v) /\ ~StillSupplied(src, v, recRan)) => store[v] = "unit"
 NormalizedIsUnit == nrmRan => \A v \in Var : (IsCart(v) /\ Has(store, v)) => store[v] \notin {"raw", "scaled"}
 SuppliedKept == \A v \in Var : SuppliedVar(src, v) => Has(store, v)
 \* observation = function of the source: every present variable carries exactly the tag the
 \* source (and normalisation) determines
-FunctionOfSource == \A v \in Var : Has(store, v) => store[v] \in OkTags(src, v, nrmRan)
+FunctionOfSource == \A v \in Var : Has(store, v) => store[v] \in OkTags(src, v, nrmRan, recRan)
+\* the face centres denote what the source supplied until construct_face_centers is called, and the
+\* normalised mean of the corners afterwards -- whatever the source supplied, whatever was read before
+FacePosition == (\E v \in Var : KindOf(v) = "face" /\ Has(store, v)) => fpos = OkFpos(src, recRan)
+\* chunking changes no frame
+ChunkKeeps == [][ Chunk => store' = store ]_vars
 
 \* confluence: once everything is materialised the store does not depend on the order
 Complete == \A v \in Var : Has(store, v)
@@ -80,14 +100,16 @@ RunSeq(m, st, seq) == IF seq = <<>> THEN st ELSE RunSeq(m, AccessEff(m, st, Head
 FixedOrder == << "node_lon", "node_lat", "node_x", "node_y", "node_z",
                  "edge_lon", "edge_lat", "edge_x", "edge_y", "edge_z",
                  "face_lon", "face_lat", "face_x", "face_y", "face_z" >>
-Canon(s, ran) == LET st == RunSeq(Mech, InitStore(s), FixedOrder)
-                 IN IF ran THEN NormalizeEff(Mech, st, "unknown").st ELSE st
-Confluence == Complete => store = Canon(src, nrmRan)
+Canon(s, ran, rec) ==
+  LET st0 == RunSeq(Mech, InitStore(s), FixedOrder)
+      r   == IF rec THEN RecentreEff(Mech, st0, InitFpos(s)) ELSE [st |-> st0, fpos |-> InitFpos(s)]
+  IN <<IF ran THEN NormalizeEff(Mech, r.st, "unknown").st ELSE r.st, r.fpos>>
+Confluence == Complete => <<store, fpos>> = Canon(src, nrmRan, recRan)
 
 StateClauses ==
   [ LonInRange |-> LonInRange, LatInRange |-> LatInRange, SamePoint |-> SamePoint,
     DerivedUnit |-> DerivedUnit, NormalizedIsUnit |-> NormalizedIsUnit,
-    Confluence |-> Confluence ]
+    FacePosition |-> FacePosition, Confluence |-> Confluence ]
 FailedClauses == { c \in DOMAIN StateClauses : ~StateClauses[c] }
 
 \* action properties
@@ -99,5 +121,5 @@ AccessReturns == [][ \A v \in Var : Access(v) => Has(store', v) ]_vars
 
 \* marks every reachable state in which a clause fails (used on MechObserved to list the
 \* counterexample states; always TRUE)
-Mark == FailedClauses = {} \/ PrintT(<<"BAD", [src |-> src, store |-> store, norm |-> norm, nrmRan |-> nrmRan], FailedClauses>>)
+Mark == FailedClauses = {} \/ PrintT(<<"BAD", [src |-> src, store |-> store, norm |-> norm, nrmRan |-> nrmRan, fpos |-> fpos, recRan |-> recRan], FailedClauses>>)
 =============================================================================
